@@ -16,6 +16,7 @@ Inductive dout : Type :=
 | DCont (stk : list value) (st : mstate)
 | DRet (stk : list value) (st : mstate)       (* retsub: the whole operand stack goes back to the caller *)
 | DExit (v : value) (st : mstate)             (* return op of the main routine / ExitProgram *)
+| DEnd (stk : list value) (st : mstate)       (* control fell off the end of the routine (only via a Continue in a loop header) *)
 | DFail
 | DFuel
 | DUnsup (o : opc).
@@ -56,21 +57,37 @@ Fixpoint args_to_imms (env : denv) (o : opc) (l : list arg) : option (list imm) 
   | a :: t => match arg_to_imm env o a, args_to_imms env o t with Some x, Some r => Some (x :: r) | _, _ => None end
   end.
 
+Definition is_load (o : opc) : bool := match o with O_load => true | _ => false end.
+Definition is_store (o : opc) : bool := match o with O_store => true | _ => false end.
+Definition is_err (o : opc) : bool := match o with O_err => true | _ => false end.
+Definition is_return (o : opc) : bool := match o with O_return_ => true | _ => false end.
+Definition is_retsub (o : opc) : bool := match o with O_retsub => true | _ => false end.
+
+(* direct access to a variable (a slot object): Some (true, u) = load, Some (false, u) = store *)
+Definition slot_access (o : opc) (imms : list arg) : option (bool * N) :=
+  match imms with
+  | [ASlot u] => if is_load o then Some (true, u) else if is_store o then Some (false, u) else None
+  | _ => None
+  end.
+
 (* one non-control operation; shared by the source semantics and the graph/linear semantics *)
 Definition do_op (env : denv) (o : opc) (imms : list arg) (stk : list value) (st : mstate) : dout :=
-  match o, imms, stk with
+  match slot_access o imms with
   (* a variable is a cell of its own: no range check on the (model-assigned) number *)
-  | O_load, [ASlot u], _ => DNorm (scratch_get (s_scratch st) (e_asg env u) :: stk) st
-  | O_store, [ASlot u], v :: r => DNorm r (set_scratch st (e_asg env u) v)
-  | O_store, [ASlot u], [] => DFail
-  | _, _, _ =>
+  | Some (true, u) => DNorm (scratch_get (s_scratch st) (e_asg env u) :: stk) st
+  | Some (false, u) =>
+      match stk with
+      | v :: r => DNorm r (set_scratch st (e_asg env u) v)
+      | [] => DFail
+      end
+  | None =>
       match args_to_imms env o imms with
       | None => DUnsup o
       | Some im =>
           match exec_op (e_ctx env) o im stk st with
           | OOk s st' => DNorm s st'
           | OFail => DFail
-          | ONot => match o with O_err => DFail | _ => DUnsup o end
+          | ONot => if is_err o then DFail else DUnsup o
           | OUnsup => DUnsup o
           end
       end
@@ -92,12 +109,9 @@ Definition branch (r : dout) (yes no : list value -> mstate -> dout) : dout :=
   | other => other
   end.
 
-(* a Break evaluated inside a loop header leaves the loop *)
-Definition loop_head (r : dout) : dout :=
-  match r with DBrk s st => DNorm s st | other => other end.
-
-Definition as_uints (l : list value) : option (list N) :=
-  fold_right (fun v acc => match v, acc with VI n, Some r => Some (n :: r) | _, _ => None end) (Some []) l.
+(* sequencing: continue with f when the first part finished normally *)
+Definition bind (r : dout) (f : list value -> mstate -> dout) : dout :=
+  match r with DNorm s st => f s st | other => other end.
 
 Section Helpers.
   Variable env : denv.
@@ -107,21 +121,15 @@ Section Helpers.
   Fixpoint den_list (l : list expr) (stk : list value) (st : mstate) : dout :=
     match l with
     | [] => DNorm stk st
-    | x :: t => match den x stk st with DNorm s1 st1 => den_list t s1 st1 | other => other end
+    | x :: t => bind (den x stk st) (fun s1 st1 => den_list t s1 st1)
     end.
 
   Fixpoint den_nary_rest (o : opc) (l : list expr) (stk : list value) (st : mstate) : dout :=
     match l with
     | [] => DNorm stk st
     | x :: t =>
-        match den x stk st with
-        | DNorm s2 st2 =>
-            match do_op env o [] s2 st2 with
-            | DNorm s3 st3 => den_nary_rest o t s3 st3
-            | other => other
-            end
-        | other => other
-        end
+        bind (den x stk st) (fun s2 st2 =>
+        bind (do_op env o [] s2 st2) (fun s3 st3 => den_nary_rest o t s3 st3))
     end.
 
   Fixpoint den_cond (l : list (expr * expr)) (stk : list value) (st : mstate) : dout :=
@@ -139,11 +147,53 @@ Section Helpers.
   Fixpoint den_stores (l : list N) (stk : list value) (st : mstate) : dout :=
     match l with
     | [] => DNorm stk st
-    | s :: t =>
-        match do_op env O_store [ASlot s] stk st with
-        | DNorm s' st' => den_stores t s' st'
-        | other => other
-        end
+    | s :: t => bind (do_op env O_store [ASlot s] stk st) (fun s' st' => den_stores t s' st')
+    end.
+
+  (* a fixed list of plain operations *)
+  Fixpoint den_ops (ops : list instr) (stk : list value) (st : mstate) : dout :=
+    match ops with
+    | [] => DNorm stk st
+    | i :: t => bind (do_op env (i_op i) (i_args i) stk st) (fun s' st' => den_ops t s' st')
+    end.
+
+  (* WideRatio: factors are evaluated left to right, the 128-bit running product being updated after
+     each one by the op sequence of widemath.py (what that sequence computes is theorem C16) *)
+  Fixpoint den_wide_rest (l : list expr) (stk : list value) (st : mstate) : dout :=
+    match l with
+    | [] => DNorm stk st
+    | f :: t =>
+        bind (den f stk st) (fun s1 st1 =>
+        bind (den_ops mul_step_ops s1 st1) (fun s2 st2 => den_wide_rest t s2 st2))
+    end.
+
+  Definition den_factors (fs : list expr) (stk : list value) (st : mstate) : dout :=
+    match fs with
+    | [] => DNorm stk st
+    | [f0] => bind (den_ops [I1 O_int 0] stk st) (fun s1 st1 => den f0 s1 st1)
+    | f0 :: f1 :: rest =>
+        bind (den f0 stk st) (fun s1 st1 =>
+        bind (den f1 s1 st1) (fun s2 st2 =>
+        bind (den_ops [I0 O_mulw] s2 st2) (fun s3 st3 => den_wide_rest rest s3 st3)))
+    end.
+
+  (* what the loop does with the outcome of its body (While) or of body-then-step (For) *)
+  Definition after_body (r : dout) (again : list value -> mstate -> dout) : dout :=
+    match r with
+    | DNorm s2 st2 => again s2 st2
+    | DCont s2 st2 => again s2 st2
+    | DBrk s2 st2 => DNorm s2 st2
+    | other => other
+    end.
+
+  (* For's init and step expressions sit in the loop header: Break leaves the loop; Continue has no target
+     in the model (PyTeal wires it to the header under construction; such programs are reported Unsupported) *)
+  Definition hdr (r : dout) (again : list value -> mstate -> dout) : dout :=
+    match r with
+    | DNorm s st => again s st
+    | DBrk s st => DNorm s st
+    | DCont s st => DEnd s st
+    | other => other
     end.
 
   (* While(c).Do(b): n bounds the number of iterations *)
@@ -153,15 +203,10 @@ Section Helpers.
     | S k =>
         match den c stk st with
         | DBrk s st' => DNorm s st'
+        | DCont s st' => DEnd s st'
         | r =>
             branch r
-                   (fun s1 st1 =>
-                      match den body s1 st1 with
-                      | DNorm s2 st2 => den_while k c body s2 st2
-                      | DCont s2 st2 => den_while k c body s2 st2
-                      | DBrk s2 st2 => DNorm s2 st2
-                      | other => other
-                      end)
+                   (fun s1 st1 => after_body (den body s1 st1) (fun s2 st2 => den_while k c body s2 st2))
                    (fun s1 st1 => DNorm s1 st1)
         end
     end.
@@ -173,21 +218,12 @@ Section Helpers.
     | S k =>
         match den c stk st with
         | DBrk s st' => DNorm s st'
+        | DCont s st' => DEnd s st'
         | r =>
             branch r
                    (fun s1 st1 =>
-                      let after (s2 : list value) (st2 : mstate) :=
-                        match den stp s2 st2 with
-                        | DNorm s3 st3 => den_for k c stp body s3 st3
-                        | DBrk s3 st3 => DNorm s3 st3
-                        | other => other
-                        end in
-                      match den body s1 st1 with
-                      | DNorm s2 st2 => after s2 st2
-                      | DCont s2 st2 => after s2 st2
-                      | DBrk s2 st2 => DNorm s2 st2
-                      | other => other
-                      end)
+                      after_body (den body s1 st1)
+                                 (fun s2 st2 => hdr (den stp s2 st2) (fun s3 st3 => den_for k c stp body s3 st3)))
                    (fun s1 st1 => DNorm s1 st1)
         end
     end.
@@ -203,18 +239,11 @@ Section Denote.
         let den := denote f in
         match e with
         | EOp o imms _ args =>
-            match den_list den args stk st with
-            | DNorm s1 st1 => do_op env o imms s1 st1
-            | other => other
-            end
+            bind (den_list den args stk st) (fun s1 st1 => do_op env o imms s1 st1)
         | ENary o _ args =>
             match args with
             | [] => DNorm stk st
-            | a1 :: rest =>
-                match den a1 stk st with
-                | DNorm s1 st1 => den_nary_rest env den o rest s1 st1
-                | other => other
-                end
+            | a1 :: rest => bind (den a1 stk st) (fun s1 st1 => den_nary_rest env den o rest s1 st1)
             end
         | ESeq es => den_list den es stk st
         | EIf c th el =>
@@ -224,61 +253,29 @@ Section Denote.
         | ECond arms => den_cond den arms stk st
         | EWhile c body => den_while den f c body stk st
         | EFor ini c stp body =>
-            match den ini stk st with
-            | DNorm s0 st0 => den_for den f c stp body s0 st0
-            | DBrk s0 st0 => DNorm s0 st0
-            | other => other
-            end
+            hdr (den ini stk st) (fun s0 st0 => den_for den f c stp body s0 st0)
         | EBreak => DBrk stk st
         | EContinue => DCont stk st
         | EAssert conds _ => den_asserts den conds stk st
         | EReturn v =>
             match v with
-            | None => if e_in_sub env then DRet stk st else DFail
+            | None =>
+                (* Return() without a value is rejected in the main routine (check_expr); kept total *)
+                if e_in_sub env then DRet stk st else match stk with r :: _ => DExit r st | [] => DFail end
             | Some x =>
-                match den x stk st with
-                | DNorm s1 st1 =>
-                    if e_in_sub env then DRet s1 st1
-                    else match s1 with r :: _ => DExit r st1 | [] => DFail end
-                | other => other
-                end
+                bind (den x stk st) (fun s1 st1 =>
+                  if e_in_sub env then DRet s1 st1
+                  else match s1 with r :: _ => DExit r st1 | [] => DFail end)
             end
         | EExit v =>
-            match den v stk st with
-            | DNorm (r :: _) st1 => DExit r st1
-            | DNorm [] _ => DFail
-            | other => other
-            end
+            bind (den v stk st) (fun s1 st1 => match s1 with r :: _ => DExit r st1 | [] => DFail end)
         | EMulti o imms args outs =>
-            match den_list den args stk st with
-            | DNorm s1 st1 =>
-                match do_op env o imms s1 st1 with
-                | DNorm s2 st2 => den_stores env (rev outs) s2 st2
-                | other => other
-                end
-            | other => other
-            end
+            bind (den_list den args stk st) (fun s1 st1 =>
+            bind (do_op env o imms s1 st1) (fun s2 st2 => den_stores env (rev outs) s2 st2))
         | ECall _ _ _ => DUnsup O_callsub        (* subroutine calls: handled by the call-aware evaluator *)
         | EWide ns ds =>
-            (* exact quotient of the two products, or failure *)
-            match den_list den ns stk st with
-            | DNorm s1 st1 =>
-                match den_list den ds s1 st1 with
-                | DNorm s2 st2 =>
-                    let nn := List.length ns in
-                    let nd := List.length ds in
-                    match as_uints (rev (firstn nn (skipn nd s2))), as_uints (rev (firstn nd s2)) with
-                    | Some nsv, Some dsv =>
-                        match wide_ratio_spec nsv dsv with
-                        | Some q => DNorm (VI q :: skipn (nn + nd) s2) st2
-                        | None => DFail
-                        end
-                    | _, _ => DFail
-                    end
-                | other => other
-                end
-            | other => other
-            end
+            bind (den_factors env den ns stk st) (fun s1 st1 =>
+            bind (den_factors env den ds s1 st1) (fun s2 st2 => den_ops env combine_ops s2 st2))
         end
     end.
 End Denote.
@@ -300,7 +297,7 @@ Definition run_main (env : denv) (fuel : nat) (main : expr) (st : mstate) : dver
   | DExit (VI n) st' => (if N.eqb n 0 then DVReject else DVApprove, st')
   | DExit (VB _) _ => (DVFail, st)
   | DNorm _ st' => (DVFail, st')          (* fell off the end: cannot happen for routines with a Return *)
-  | DBrk _ st' | DCont _ st' | DRet _ st' => (DVFail, st')
+  | DBrk _ st' | DCont _ st' | DRet _ st' | DEnd _ st' => (DVFail, st')
   | DFail => (DVFail, st)
   | DFuel => (DVFuel, st)
   | DUnsup o => (DVUnsup o, st)
